@@ -223,9 +223,12 @@ class Task(NamedUIDObject):
         )
         if self.optional:  # in this case the previous assertions maybe skipped
             self._scheduled = z3.Bool(f"{self.name}_scheduled")
-            # the first task is moved to -1, the second to -2
-            # etc.
-            point_in_past = -self._task_number
+            # each unscheduled task is moved to its own point in the past, which
+            # must also differ from the points used for workers that are not
+            # selected (see SchedulingProblem.get_unique_negative_integer)
+            point_in_past = (
+                processscheduler.base.active_problem.get_unique_negative_integer()
+            )
             if isinstance(self, VariableDurationTask):
                 not_scheduled_assertion = z3.And(
                     self._start == point_in_past,  # to past
